@@ -1,4 +1,729 @@
-#[allow(dead_code, unused_imports, unused_variables, unused_mut)]
+// C20 (6LoWPAN compression and fragmentation are lossless) and the 6LoWPAN part of C03.
+// Spliced into src/iface/interface/sixlowpan.rs (child of `iface::interface`): the private
+// `InterfaceInner::{sixlowpan_to_ipv6, ipv6_to_sixlowpan, compressed_packet_size, process_sixlowpan_fragment,
+// dispatch_sixlowpan, dispatch_sixlowpan_frag, dispatch_ieee802154}` are reachable.
+//
+// The round trip decompress(compress(p)) = p is cut at the 802.15.4 payload bytes (DESIGN.md probe 15):
+//   lowpan_compress_<shape>    real compressor output          == tmpl(shape, fields of p)
+//   lowpan_decompress_<shape>  real decompressor on tmpl(..)   == expected(shape, fields of p)  (plain RFC 8200 datagram)
+// `tmpl` is written here from RFC 6282 (IPHC 3.1, address modes 3.1.1/3.2.2, UDP NHC 4.3.3) and RFC 4944 5.3; it is
+// shape-concrete (every offset is a compile-time fact of the harness) and field-symbolic.
+#[allow(dead_code, unused_imports, unused_variables, unused_mut, unused_assignments)]
 mod v_iface_sixlowpan {
     use super::*;
+    use crate::iface::{Config, Interface};
+    use crate::verif_common::*;
+    use crate::verif_dev::{CapTx, NullDev, TxState};
+
+    // ------------------------------------------------------------------ shapes
+    #[derive(Clone, Copy, PartialEq, Eq)]
+    enum Ll {
+        Ext,
+        Short,
+    }
+
+    /// how one address is carried (RFC 6282 3.1.1: SAC/SAM, M/DAC/DAM)
+    #[derive(Clone, Copy, PartialEq, Eq)]
+    enum Am {
+        /// 128 bits in-line (SAC=0 SAM=00 / M=0 DAC=0 DAM=00)
+        Full,
+        /// fe80::/64 + 64 bits in-line (mode 01)
+        Ll64,
+        /// fe80::0000:00ff:fe00:XXXX, 16 bits in-line (mode 10)
+        Ll16,
+        /// fe80::/64 + IID computed from the link-layer address (mode 11)
+        LlElided,
+        /// the unspecified address :: (SAC=1 SAM=00), source only
+        Unspec,
+        /// context prefix (64 bits) + 64 bits in-line (SAC/DAC=1 mode 01)
+        Ctx64,
+        /// context prefix + 0000:00ff:fe00:XXXX (SAC/DAC=1 mode 10)
+        Ctx16,
+        /// context prefix + IID from the link-layer address (SAC/DAC=1 mode 11)
+        CtxElided,
+        /// M=1 DAM=00: 128 bits in-line, destination only
+        McFull,
+        /// M=1 DAM=01: ffXX::00XX:XXXX:XXXX, 48 bits in-line
+        Mc48,
+        /// M=1 DAM=10: ffXX::00XX:XXXX, 32 bits in-line
+        Mc32,
+        /// M=1 DAM=11: ff02::00XX, 8 bits in-line
+        Mc8,
+    }
+
+    /// upper layer and how IPHC announces it (a plain struct: enums with payload are niche-encoded and CBMC loses
+    /// their discriminant, which makes every `match` arm live)
+    #[derive(Clone, Copy, PartialEq, Eq)]
+    struct Up {
+        /// UP_ICMP: NH=0, next header 58 in-line, ICMPv6 echo request (8 octets) + data
+        /// UP_TCP: NH=0, next header 6 in-line, TCP header without options (20 octets) + data
+        /// UP_UDP_INLINE: NH=0, next header 17 in-line, plain UDP header (peers only; smoltcp always uses NHC)
+        /// UP_UDP_NHC: NH=1, LOWPAN_NHC UDP 11110CPP: port mode p, checksum elided c
+        kind: u8,
+        p: u8,
+        c: bool,
+    }
+    const UP_ICMP: u8 = 0;
+    const UP_TCP: u8 = 1;
+    const UP_UDP_INLINE: u8 = 2;
+    const UP_UDP_NHC: u8 = 3;
+    const ICMP: Up = Up { kind: UP_ICMP, p: 0, c: false };
+    const TCP: Up = Up { kind: UP_TCP, p: 0, c: false };
+    const UDP_INLINE: Up = Up { kind: UP_UDP_INLINE, p: 0, c: false };
+    const fn nhc(p: u8) -> Up {
+        Up { kind: UP_UDP_NHC, p, c: false }
+    }
+    const fn nhc_elided(p: u8) -> Up {
+        Up { kind: UP_UDP_NHC, p, c: true }
+    }
+    fn is_nhc(s: &Shape) -> bool {
+        s.up.kind == UP_UDP_NHC
+    }
+
+    #[derive(Clone, Copy)]
+    struct Shape {
+        /// TF 00: ECN+DSCP+flow label (4 octets), 01: ECN+flow label (3), 10: ECN+DSCP (1), 11: elided
+        tf: u8,
+        /// HLIM 00: in-line, 01: 1, 10: 64, 11: 255
+        hlim: u8,
+        /// context identifier extension octet present
+        cid: bool,
+        src: Am,
+        dst: Am,
+        sll: Ll,
+        dll: Ll,
+        up: Up,
+        /// upper-layer payload octets (0..=4)
+        plen: usize,
+    }
+
+    const fn sh(hlim: u8, src: Am, sll: Ll, dst: Am, dll: Ll, up: Up, plen: usize) -> Shape {
+        Shape { tf: 3, hlim, cid: false, src, dst, sll, dll, up, plen }
+    }
+
+    const LL_PREFIX: [u8; 8] = [0xfe, 0x80, 0, 0, 0, 0, 0, 0];
+    const SHORT_IID: [u8; 6] = [0, 0, 0, 0xff, 0xfe, 0];
+    const TL: usize = 64;
+
+    /// all field values of one datagram of a shape
+    #[derive(Clone, Copy)]
+    struct Fields {
+        /// IPv6 traffic class octet (DSCP:6 | ECN:2) and 20-bit flow label
+        tc: u8,
+        flow: u32,
+        hl: u8,
+        src: [u8; 16],
+        dst: [u8; 16],
+        sll: [u8; 8],
+        dll: [u8; 8],
+        /// context 0 of the receiver's table; SCI/DCI octet if CID=1
+        ctx: [u8; 8],
+        cidb: u8,
+        sport: u16,
+        dport: u16,
+        ck: [u8; 2],
+        /// Icmp/Tcp/UdpInline: the whole upper-layer header + data; UdpNhc: the UDP data in up[..plen]
+        up: [u8; 24],
+    }
+
+    fn ll_addr(k: Ll, b: &[u8; 8]) -> Ieee802154Address {
+        match k {
+            Ll::Ext => Ieee802154Address::Extended(*b),
+            Ll::Short => Ieee802154Address::Short([b[0], b[1]]),
+        }
+    }
+
+    /// RFC 6282 3.2.2 / RFC 4944 6: IID of a link-layer address (EUI-64 with the U/L bit flipped, or 0000:00ff:fe00:XXXX)
+    fn iid(k: Ll, b: &[u8; 8]) -> [u8; 8] {
+        match k {
+            Ll::Ext => [b[0] ^ 0x02, b[1], b[2], b[3], b[4], b[5], b[6], b[7]],
+            Ll::Short => [0, 0, 0, 0xff, 0xfe, 0, b[0], b[1]],
+        }
+    }
+
+    fn mk_addr(m: Am, raw: &[u8; 16], k: Ll, llb: &[u8; 8], ctx: &[u8; 8]) -> [u8; 16] {
+        let mut a = [0u8; 16];
+        match m {
+            Am::Full => a = *raw,
+            Am::McFull => {
+                a = *raw;
+                a[0] = 0xff;
+            }
+            Am::Ll64 => {
+                a[..8].copy_from_slice(&LL_PREFIX);
+                a[8..].copy_from_slice(&raw[8..]);
+            }
+            Am::Ll16 => {
+                a[..8].copy_from_slice(&LL_PREFIX);
+                a[8..14].copy_from_slice(&SHORT_IID);
+                a[14] = raw[14];
+                a[15] = raw[15];
+            }
+            Am::LlElided => {
+                a[..8].copy_from_slice(&LL_PREFIX);
+                a[8..].copy_from_slice(&iid(k, llb));
+            }
+            Am::Unspec => {}
+            Am::Ctx64 => {
+                a[..8].copy_from_slice(ctx);
+                a[8..].copy_from_slice(&raw[8..]);
+            }
+            Am::Ctx16 => {
+                a[..8].copy_from_slice(ctx);
+                a[8..14].copy_from_slice(&SHORT_IID);
+                a[14] = raw[14];
+                a[15] = raw[15];
+            }
+            Am::CtxElided => {
+                a[..8].copy_from_slice(ctx);
+                a[8..].copy_from_slice(&iid(k, llb));
+            }
+            Am::Mc48 => {
+                a[0] = 0xff;
+                a[1] = raw[1];
+                a[11..].copy_from_slice(&raw[11..]);
+            }
+            Am::Mc32 => {
+                a[0] = 0xff;
+                a[1] = raw[1];
+                a[13..].copy_from_slice(&raw[13..]);
+            }
+            Am::Mc8 => {
+                a[0] = 0xff;
+                a[1] = 0x02;
+                a[15] = raw[15];
+            }
+        }
+        a
+    }
+
+    fn uses_ctx(m: Am) -> bool {
+        matches!(m, Am::Ctx64 | Am::Ctx16 | Am::CtxElided)
+    }
+
+    /// (SAC or M/DAC bits, mode bits) of an address mode
+    fn src_bits(m: Am) -> u8 {
+        match m {
+            Am::Full => 0b0_00,
+            Am::Ll64 => 0b0_01,
+            Am::Ll16 => 0b0_10,
+            Am::LlElided => 0b0_11,
+            Am::Unspec => 0b1_00,
+            Am::Ctx64 => 0b1_01,
+            Am::Ctx16 => 0b1_10,
+            Am::CtxElided => 0b1_11,
+            _ => panic!("not a source mode"),
+        }
+    }
+    fn dst_bits(m: Am) -> u8 {
+        match m {
+            Am::Full => 0b0_0_00,
+            Am::Ll64 => 0b0_0_01,
+            Am::Ll16 => 0b0_0_10,
+            Am::LlElided => 0b0_0_11,
+            Am::Ctx64 => 0b0_1_01,
+            Am::Ctx16 => 0b0_1_10,
+            Am::CtxElided => 0b0_1_11,
+            Am::McFull => 0b1_0_00,
+            Am::Mc48 => 0b1_0_01,
+            Am::Mc32 => 0b1_0_10,
+            Am::Mc8 => 0b1_0_11,
+            Am::Unspec => panic!("not a destination mode"),
+        }
+    }
+
+    /// in-line octets of an address, appended at t[i..]; returns the new i
+    fn put_addr(m: Am, a: &[u8; 16], t: &mut [u8; TL], mut i: usize) -> usize {
+        match m {
+            Am::Full | Am::McFull => {
+                t[i..i + 16].copy_from_slice(a);
+                i += 16;
+            }
+            Am::Ll64 | Am::Ctx64 => {
+                t[i..i + 8].copy_from_slice(&a[8..]);
+                i += 8;
+            }
+            Am::Ll16 | Am::Ctx16 => {
+                t[i] = a[14];
+                t[i + 1] = a[15];
+                i += 2;
+            }
+            Am::LlElided | Am::CtxElided | Am::Unspec => {}
+            Am::Mc48 => {
+                t[i] = a[1];
+                t[i + 1..i + 6].copy_from_slice(&a[11..]);
+                i += 6;
+            }
+            Am::Mc32 => {
+                t[i] = a[1];
+                t[i + 1..i + 4].copy_from_slice(&a[13..]);
+                i += 4;
+            }
+            Am::Mc8 => {
+                t[i] = a[15];
+                i += 1;
+            }
+        }
+        i
+    }
+
+    fn upper_len(s: &Shape) -> usize {
+        match s.up.kind {
+            UP_ICMP => 8 + s.plen,
+            UP_TCP => 20 + s.plen,
+            _ => 8 + s.plen,
+        }
+    }
+    fn proto(s: &Shape) -> u8 {
+        match s.up.kind {
+            UP_ICMP => 58,
+            UP_TCP => 6,
+            _ => 17,
+        }
+    }
+
+    /// positions inside the template that harnesses refer to
+    #[derive(Clone, Copy)]
+    struct Lay {
+        len: usize,
+        /// end of the compressed headers (IPHC, and the whole UDP NHC incl. in-line checksum)
+        hdr: usize,
+        /// the NHC octet and the in-line checksum (UDP NHC only, else 0)
+        nhc_at: usize,
+        ck_at: usize,
+    }
+
+    /// RFC 6282 encoding of the datagram `f` in shape `s`
+    fn tmpl(s: &Shape, f: &Fields, t: &mut [u8; TL]) -> Lay {
+        let nhc = is_nhc(s);
+        t[0] = 0b011_00_0_00 | (s.tf << 3) | ((nhc as u8) << 2) | s.hlim;
+        t[1] = ((s.cid as u8) << 7) | (src_bits(s.src) << 4) | dst_bits(s.dst);
+        let mut i = 2;
+        if s.cid {
+            t[i] = f.cidb;
+            i += 1;
+        }
+        let ecn = f.tc & 0x03;
+        let dscp = f.tc >> 2;
+        match s.tf {
+            0 => {
+                t[i] = (ecn << 6) | dscp;
+                t[i + 1] = ((f.flow >> 16) & 0x0f) as u8;
+                t[i + 2] = (f.flow >> 8) as u8;
+                t[i + 3] = f.flow as u8;
+                i += 4;
+            }
+            1 => {
+                t[i] = (ecn << 6) | ((f.flow >> 16) & 0x0f) as u8;
+                t[i + 1] = (f.flow >> 8) as u8;
+                t[i + 2] = f.flow as u8;
+                i += 3;
+            }
+            2 => {
+                t[i] = (ecn << 6) | dscp;
+                i += 1;
+            }
+            _ => {}
+        }
+        if !nhc {
+            t[i] = proto(s);
+            i += 1;
+        }
+        if s.hlim == 0 {
+            t[i] = f.hl;
+            i += 1;
+        }
+        i = put_addr(s.src, &f.src, t, i);
+        i = put_addr(s.dst, &f.dst, t, i);
+        let mut lay = Lay { len: 0, hdr: i, nhc_at: 0, ck_at: 0 };
+        match nhc {
+            false => {
+                let n = upper_len(s);
+                t[i..i + n].copy_from_slice(&f.up[..n]);
+                i += n;
+            }
+            true => {
+                let p = s.up.p;
+                let c = s.up.c;
+                lay.nhc_at = i;
+                t[i] = 0b11110_000 | ((c as u8) << 2) | p;
+                i += 1;
+                match p {
+                    0 => {
+                        t[i] = (f.sport >> 8) as u8;
+                        t[i + 1] = f.sport as u8;
+                        t[i + 2] = (f.dport >> 8) as u8;
+                        t[i + 3] = f.dport as u8;
+                        i += 4;
+                    }
+                    1 => {
+                        // source in full, destination 0xf0XX
+                        t[i] = (f.sport >> 8) as u8;
+                        t[i + 1] = f.sport as u8;
+                        t[i + 2] = f.dport as u8;
+                        i += 3;
+                    }
+                    2 => {
+                        // source 0xf0XX, destination in full
+                        t[i] = f.sport as u8;
+                        t[i + 1] = (f.dport >> 8) as u8;
+                        t[i + 2] = f.dport as u8;
+                        i += 3;
+                    }
+                    _ => {
+                        // both 0xf0bX: source nibble high, destination nibble low
+                        t[i] = (((f.sport & 0x0f) as u8) << 4) | (f.dport & 0x0f) as u8;
+                        i += 1;
+                    }
+                }
+                if !c {
+                    lay.ck_at = i;
+                    t[i] = f.ck[0];
+                    t[i + 1] = f.ck[1];
+                    i += 2;
+                }
+                lay.hdr = i;
+                t[i..i + s.plen].copy_from_slice(&f.up[..s.plen]);
+                i += s.plen;
+            }
+        }
+        lay.len = i;
+        lay
+    }
+
+    /// the plain IPv6 datagram (RFC 8200 header; RFC 768 UDP header) the template stands for; returns its length
+    fn expected(s: &Shape, f: &Fields, e: &mut [u8; 64]) -> usize {
+        let ul = upper_len(s);
+        e[0] = 0x60 | (f.tc >> 4);
+        e[1] = (f.tc << 4) | ((f.flow >> 16) & 0x0f) as u8;
+        e[2] = (f.flow >> 8) as u8;
+        e[3] = f.flow as u8;
+        e[4] = (ul >> 8) as u8;
+        e[5] = ul as u8;
+        e[6] = proto(s);
+        e[7] = f.hl;
+        e[8..24].copy_from_slice(&f.src);
+        e[24..40].copy_from_slice(&f.dst);
+        match is_nhc(s) {
+            false => e[40..40 + ul].copy_from_slice(&f.up[..ul]),
+            true => {
+                e[40] = (f.sport >> 8) as u8;
+                e[41] = f.sport as u8;
+                e[42] = (f.dport >> 8) as u8;
+                e[43] = f.dport as u8;
+                e[44] = (ul >> 8) as u8;
+                e[45] = ul as u8;
+                e[46] = f.ck[0];
+                e[47] = f.ck[1];
+                e[48..48 + s.plen].copy_from_slice(&f.up[..s.plen]);
+            }
+        }
+        40 + ul
+    }
+
+    /// symbolic field values of a datagram that can be carried in shape `s`
+    fn any_fields(s: &Shape) -> Fields {
+        let sll: [u8; 8] = kani::any();
+        let dll: [u8; 8] = kani::any();
+        let ctx: [u8; 8] = kani::any();
+        let rs: [u8; 16] = kani::any();
+        let rd: [u8; 16] = kani::any();
+        let mut f = Fields {
+            tc: kani::any(),
+            flow: kani::any(),
+            hl: kani::any(),
+            src: mk_addr(s.src, &rs, s.sll, &sll, &ctx),
+            dst: mk_addr(s.dst, &rd, s.dll, &dll, &ctx),
+            sll,
+            dll,
+            ctx,
+            cidb: 0,
+            sport: kani::any(),
+            dport: kani::any(),
+            ck: kani::any(),
+            up: kani::any(),
+        };
+        kani::assume(f.flow < (1 << 20));
+        match s.tf {
+            1 => kani::assume(f.tc >> 2 == 0),
+            2 => kani::assume(f.flow == 0),
+            3 => kani::assume(f.tc == 0 && f.flow == 0),
+            _ => {}
+        }
+        match s.hlim {
+            1 => f.hl = 1,
+            2 => f.hl = 64,
+            3 => f.hl = 255,
+            _ => {}
+        }
+        if is_nhc(s) {
+            match s.up.p {
+                1 => kani::assume(f.dport >> 8 == 0xf0),
+                2 => kani::assume(f.sport >> 8 == 0xf0),
+                3 => kani::assume(f.sport >> 4 == 0xf0b && f.dport >> 4 == 0xf0b),
+                _ => {}
+            }
+        }
+        f
+    }
+
+    fn ieee(src: Option<Ieee802154Address>, dst: Option<Ieee802154Address>) -> Ieee802154Repr {
+        Ieee802154Repr {
+            frame_type: Ieee802154FrameType::Data,
+            security_enabled: false,
+            frame_pending: false,
+            ack_request: false,
+            sequence_number: Some(1),
+            pan_id_compression: true,
+            frame_version: Ieee802154FrameVersion::Ieee802154_2003,
+            dst_pan_id: Some(Ieee802154Pan(0xabcd)),
+            dst_addr: dst,
+            src_pan_id: Some(Ieee802154Pan(0xabcd)),
+            src_addr: src,
+        }
+    }
+
+    fn ieee_of(s: &Shape, f: &Fields) -> Ieee802154Repr {
+        ieee(Some(ll_addr(s.sll, &f.sll)), Some(ll_addr(s.dll, &f.dll)))
+    }
+
+    // ------------------------------------------------------------------ 2. decompression of a template
+    /// `ctx_table`: number of entries in the receiver's context table (context 0 = f.ctx)
+    fn decompress_case(s: Shape) {
+        let mut f = any_fields(&s);
+        if s.cid {
+            // 1-entry table: SCI = DCI = 0 are the identifiers that resolve
+            f.cidb = 0;
+        }
+        let r802 = ieee_of(&s, &f);
+        let mut t = [0u8; TL];
+        let lay = tmpl(&s, &f, &mut t);
+        let mut e = [0u8; 64];
+        let m = expected(&s, &f, &mut e);
+        let ctx = [SixlowpanAddressContext(f.ctx)];
+        let mut out: [u8; 64] = kani::any();
+        crate::vdump!("TEMPLATE {:02x?}", &t[..lay.len]);
+        let r = InterfaceInner::sixlowpan_to_ipv6(&ctx[..], &r802, &t[..lay.len], None, &mut out[..]);
+        crate::vdump!("RESULT {:?}\nGOT      {:02x?}\nEXPECTED {:02x?}", r, &out[..m], &e[..m]);
+        assert!(r.is_ok(), "prop:c20_well_formed_datagram_is_decompressed");
+        assert!(matches!(r, Ok(l) if l == m), "prop:c20_decompressed_length");
+        let k = any_lt(64);
+        kani::assume(k < m);
+        let is_udp_ck = is_nhc(&s) && (k == 46 || k == 47);
+        if k < 4 {
+            // smoltcp's Ipv6Repr carries neither traffic class nor flow label: compared only when elided (TF=11)
+            assert!(out[0] >> 4 == 6, "prop:c20_decompressed_version");
+            if s.tf == 3 {
+                assert!(out[k] == e[k], "prop:c20_decompressed_ipv6_header");
+            }
+        } else if k < 8 {
+            assert!(out[k] == e[k], "prop:c20_decompressed_ipv6_header");
+        } else if k < 24 {
+            assert!(out[k] == e[k], "prop:c20_decompressed_source_address");
+        } else if k < 40 {
+            assert!(out[k] == e[k], "prop:c20_decompressed_destination_address");
+        } else if is_udp_ck {
+            // the UDP checksum field is the subject of lowpan_decompress_udp_checksum_kept
+        } else if is_nhc(&s) && k < 42 {
+            assert!(out[k] == e[k], "prop:c20_decompressed_udp_source_port");
+        } else if is_nhc(&s) && k < 44 {
+            assert!(out[k] == e[k], "prop:c20_decompressed_udp_destination_port");
+        } else if is_nhc(&s) && k < 46 {
+            assert!(out[k] == e[k], "prop:c20_decompressed_udp_length");
+        } else {
+            assert!(out[k] == e[k], "prop:c20_decompressed_upper_layer_bytes");
+        }
+        kani::cover!(k == m - 1 && r.is_ok(), "last octet of the datagram compared");
+        kani::cover!(k == 23 && r.is_ok() && out[23] != 0, "source address compared");
+    }
+
+    // ------------------------------------------------------------------ 1. compression equals the template
+    /// the datagram is one for which RFC 6282's most compact stateless form is exactly `s`
+    /// (smoltcp picks the form from the address values; the template must be the one it has to pick)
+    fn assume_sender_picks(s: &Shape, f: &Fields) {
+        fn pick(m: Am, a: &[u8; 16], k: Ll, llb: &[u8; 8]) {
+            let short_form = a[8] == 0 && a[9] == 0 && a[10] == 0 && a[11] == 0xff && a[12] == 0xfe && a[13] == 0;
+            let ll_pfx = a[0] == 0xfe && a[1] == 0x80 && a[2] == 0 && a[3] == 0 && a[4] == 0 && a[5] == 0 && a[6] == 0 && a[7] == 0;
+            let i = iid(k, llb);
+            let is_iid = a[8] == i[0] && a[9] == i[1] && a[10] == i[2] && a[11] == i[3] && a[12] == i[4] && a[13] == i[5] && a[14] == i[6] && a[15] == i[7];
+            let z2_10 = a[2] == 0 && a[3] == 0 && a[4] == 0 && a[5] == 0 && a[6] == 0 && a[7] == 0 && a[8] == 0 && a[9] == 0 && a[10] == 0;
+            let unspec = a[0] == 0 && a[1] == 0 && z2_10 && a[11] == 0 && a[12] == 0 && a[13] == 0 && a[14] == 0 && a[15] == 0;
+            match m {
+                Am::Full => kani::assume(!unspec && !ll_pfx && a[0] != 0xff),
+                Am::Ll64 => kani::assume(!short_form && !is_iid),
+                Am::Ll16 => kani::assume(!is_iid),
+                Am::LlElided | Am::Unspec | Am::Mc8 => {}
+                Am::Mc32 => kani::assume(!(a[1] == 0x02 && a[13] == 0 && a[14] == 0)),
+                Am::Mc48 => kani::assume(!(a[11] == 0 && a[12] == 0)),
+                Am::McFull => kani::assume(!z2_10),
+                _ => panic!("smoltcp never emits context-based forms"),
+            }
+        }
+        pick(s.src, &f.src, s.sll, &f.sll);
+        pick(s.dst, &f.dst, s.dll, &f.dll);
+        if s.hlim == 0 {
+            kani::assume(f.hl != 1 && f.hl != 64 && f.hl != 255);
+        }
+        if is_nhc(s) {
+            let p = s.up.p;
+            let s8 = f.sport >> 8 == 0xf0;
+            let d8 = f.dport >> 8 == 0xf0;
+            let both4 = f.sport >> 4 == 0xf0b && f.dport >> 4 == 0xf0b;
+            match p {
+                0 => kani::assume(!s8 && !d8),
+                1 => kani::assume(!s8),
+                2 => kani::assume(!both4),
+                _ => {}
+            }
+        }
+    }
+
+    /// common tail: sizes, real compression over a stale buffer, octet-wise comparison with the template
+    fn check_compress(s: &Shape, f: &Fields, r802: &Ieee802154Repr, pkt: PacketV6, stale: &[u8; TL], iphc_len: usize) {
+        let mut t = [0u8; TL];
+        let lay = tmpl(s, f, &mut t);
+        let caps = ChecksumCapabilities::ignored();
+        let (total, comp, uncomp) = InterfaceInner::compressed_packet_size(&pkt, r802);
+        crate::vdump!("sizes total={} compressed_hdr={} uncompressed_hdr={} template len={} hdr={}", total, comp, uncomp, lay.len, lay.hdr);
+        assert!(total == lay.len, "prop:c20_compressed_size_equals_template_length");
+        assert!(comp == lay.hdr, "prop:c20_compressed_header_size");
+        assert!(uncomp == if is_nhc(s) { 48 } else { 40 }, "prop:c20_uncompressed_header_size");
+        let mut buf = *stale;
+        InterfaceInner::ipv6_to_sixlowpan(&caps, pkt, r802, &mut buf[..lay.len]);
+        crate::vdump!("GOT      {:02x?}\nTEMPLATE {:02x?}", &buf[..lay.len], &t[..lay.len]);
+        let k = any_lt(TL);
+        kani::assume(k < lay.len);
+        if is_nhc(s) {
+            if k == lay.nhc_at {
+                // C = 0: the two checksum octets are part of the layout `compressed_packet_size` announced
+                assert!(buf[k] & 0x04 == 0, "prop:c20_udp_nhc_checksum_bit_matches_layout");
+                assert!(buf[k] | 0x04 == t[k] | 0x04, "prop:c20_compressed_bytes_equal_template");
+            } else if k == lay.ck_at || k == lay.ck_at + 1 {
+                // tx checksumming is off in this harness: the checksum value is left to the device
+            } else if k > lay.nhc_at && k < lay.ck_at {
+                assert!(buf[k] == t[k], "prop:c20_compressed_udp_ports_equal_template");
+            } else {
+                assert!(buf[k] == t[k], "prop:c20_compressed_bytes_equal_template");
+            }
+        } else {
+            assert!(buf[k] == t[k], "prop:c20_compressed_bytes_equal_template");
+        }
+        kani::cover!(k == lay.len - 1, "last octet compared");
+        kani::cover!(k == 1, "second IPHC octet compared");
+    }
+
+    fn compress_udp(s: Shape) {
+        let f = any_fields(&s);
+        assume_sender_picks(&s, &f);
+        let r802 = ieee_of(&s, &f);
+        let stale: [u8; TL] = kani::any();
+        let pkt = PacketV6 {
+            header: Ipv6Repr {
+                src_addr: Ipv6Address::from_octets(f.src),
+                dst_addr: Ipv6Address::from_octets(f.dst),
+                next_header: IpProtocol::Udp,
+                payload_len: 8 + s.plen,
+                hop_limit: f.hl,
+            },
+            payload: IpPayload::Udp(UdpRepr { src_port: f.sport, dst_port: f.dport }, &f.up[..s.plen]),
+        };
+        check_compress(&s, &f, &r802, pkt, &stale, 0);
+    }
+
+    fn compress_icmp(s: Shape) {
+        let mut f = any_fields(&s);
+        assume_sender_picks(&s, &f);
+        let r802 = ieee_of(&s, &f);
+        let stale: [u8; TL] = kani::any();
+        let data: [u8; 4] = kani::any();
+        let ident: u16 = kani::any();
+        let seq_no: u16 = kani::any();
+        // RFC 4443 4.1: type 128, code 0, checksum (0: not computed with tx checksumming off), identifier, sequence number, data
+        f.up = [0; 24];
+        f.up[0] = 0x80;
+        f.up[4] = (ident >> 8) as u8;
+        f.up[5] = ident as u8;
+        f.up[6] = (seq_no >> 8) as u8;
+        f.up[7] = seq_no as u8;
+        f.up[8..12].copy_from_slice(&data);
+        let pkt = PacketV6 {
+            header: Ipv6Repr {
+                src_addr: Ipv6Address::from_octets(f.src),
+                dst_addr: Ipv6Address::from_octets(f.dst),
+                next_header: IpProtocol::Icmpv6,
+                payload_len: 8 + s.plen,
+                hop_limit: f.hl,
+            },
+            payload: IpPayload::Icmpv6(Icmpv6Repr::EchoRequest { ident, seq_no, data: &data[..s.plen] }),
+        };
+        check_compress(&s, &f, &r802, pkt, &stale, 0);
+    }
+
+    fn compress_tcp(s: Shape) {
+        let mut f = any_fields(&s);
+        assume_sender_picks(&s, &f);
+        let r802 = ieee_of(&s, &f);
+        let stale: [u8; TL] = kani::any();
+        let data: [u8; 4] = kani::any();
+        let src = Ipv6Address::from_octets(f.src);
+        let dst = Ipv6Address::from_octets(f.dst);
+        let tcp = TcpRepr {
+            src_port: f.sport,
+            dst_port: f.dport,
+            control: match kani::any::<u8>() & 3 {
+                0 => TcpControl::None,
+                1 => TcpControl::Psh,
+                2 => TcpControl::Syn,
+                _ => TcpControl::Fin,
+            },
+            seq_number: TcpSeqNumber(kani::any()),
+            ack_number: if kani::any() { Some(TcpSeqNumber(kani::any())) } else { None },
+            window_len: kani::any(),
+            window_scale: None,
+            max_seg_size: None,
+            sack_permitted: false,
+            sack_ranges: [None, None, None],
+            timestamp: None,
+            payload: &data[..s.plen],
+        };
+        // reference: the plain emission of the same segment (what `Packet::emit_payload` does on other media), over the
+        // same stale buffer contents
+        let mut t = [0u8; TL];
+        let hdr = tmpl(&s, &f, &mut t).hdr;
+        f.up.copy_from_slice(&stale[hdr..hdr + 24]);
+        tcp.emit(&mut TcpPacket::new_unchecked(&mut f.up[..20 + s.plen]), &src.into(), &dst.into(), &ChecksumCapabilities::ignored());
+        let pkt = PacketV6 {
+            header: Ipv6Repr { src_addr: src, dst_addr: dst, next_header: IpProtocol::Tcp, payload_len: 20 + s.plen, hop_limit: f.hl },
+            payload: IpPayload::Tcp(tcp),
+        };
+        check_compress(&s, &f, &r802, pkt, &stale, 0);
+    }
+
+    use Am::*;
+    use Ll::{Ext, Short};
+
+    // ---- shapes the stack itself emits (quick tier), both directions
+    const S_UDP4: Shape = sh(2, LlElided, Ext, LlElided, Ext, nhc(3), 4);
+    const S_UDP0: Shape = sh(2, LlElided, Ext, Full, Ext, nhc(0), 4);
+    const S_UDP1: Shape = sh(0, Full, Ext, Full, Ext, nhc(1), 3);
+    const S_UDP2: Shape = sh(3, Ll64, Ext, Ll64, Short, nhc(2), 4);
+    const S_ICMP_SHORT: Shape = sh(1, LlElided, Short, Ll16, Ext, ICMP, 4);
+    const S_ICMP_MC8: Shape = sh(3, Unspec, Ext, Mc8, Short, ICMP, 2);
+    const S_ICMP_MC32: Shape = sh(2, Ll16, Short, Mc32, Short, ICMP, 4);
+    const S_ICMP_MC48: Shape = sh(3, Full, Ext, Mc48, Short, ICMP, 0);
+    const S_UDP_MCFULL: Shape = sh(2, LlElided, Ext, McFull, Short, nhc(0), 1);
+    const S_TCP: Shape = sh(2, Full, Ext, Full, Ext, TCP, 4);
+    const S_TCP_LL: Shape = sh(2, LlElided, Ext, LlElided, Short, TCP, 2);
+
+    // @harness props=C20 cfg=KL tier=q to=600 mem=6 unwind=20 opts=nomem covers=2 funcs=InterfaceInner::compressed_packet_size;InterfaceInner::ipv6_to_sixlowpan;SixlowpanIphcRepr::emit;SixlowpanUdpNhcRepr::emit bounds=shape_TF11_HLIM64_src/dst_elided_from_extended_link_addresses_UDP-NHC_both_ports_0xf0bX;_payload_4_octets;_all_field_values_symbolic;_tx_checksum_off;_stale_buffer_contents_arbitrary
+    #[kani::proof]
+    pub(crate) fn lowpan_compress_udp_ports4() {
+        compress_udp(S_UDP4);
+    }
+
+    // @harness props=C20 cfg=KL tier=q to=600 mem=6 unwind=20 opts=nomem covers=2 funcs=InterfaceInner::sixlowpan_to_ipv6;SixlowpanIphcRepr::parse;SixlowpanUdpNhcRepr::parse;UdpRepr::emit_header;Ipv6Repr::emit bounds=shape_TF11_HLIM64_src/dst_elided_from_extended_link_addresses_UDP-NHC_both_ports_0xf0bX_checksum_inline;_payload_4_octets;_all_field_values_symbolic;_UDP_checksum_field_not_compared_here
+    #[kani::proof]
+    pub(crate) fn lowpan_decompress_udp_ports4() {
+        decompress_case(S_UDP4);
+    }
 }
